@@ -239,6 +239,10 @@ func runC16(r *simkit.Run) {
 	simkit.Beat()
 	resp, perr := client.Post(cc.Endpoint+"/", "application/octet-stream", bytes.NewReader(body))
 	status := 0
+	if perr != nil {
+		// keep the ephemeral port out of messages and logs (replay compares the event log)
+		perr = fmt.Errorf("%s", strings.ReplaceAll(perr.Error(), ln.Addr().String(), "ADDR"))
+	}
 	if perr == nil {
 		status = resp.StatusCode
 		_, _ = io.Copy(io.Discard, resp.Body)
